@@ -434,6 +434,12 @@ func (te *tableEngine) PlayerRedeemChips(joinPlayer JoinPlayer) error {
 
 	playerState := te.table.State.PlayerStates[playerIdx]
 	playerState.Bankroll += joinPlayer.RedeemChips
+	if playerState.Bankroll > 0 {
+		// a busted player who adds chips counts for the next hand, as after a re-buy
+		if err := te.sm.UpdatePlayerHasChips(playerState.PlayerID, true); err != nil {
+			return err
+		}
+	}
 
 	te.emitEvent("PlayerRedeemChips", joinPlayer.PlayerID)
 	te.emitTablePlayerStateEvent(playerState)
